@@ -54,7 +54,7 @@ TNext ==
   /\ l <= Len(Trace)
   /\ LET e == Trace[l] IN
      IF e.out.kind # "ok"
-     THEN /\ \A p \in {"C06", "C10", "C11"} : PrintT(<<"VERDICT", e.id, p, "crash-" \o e.out.kind>>)
+     THEN /\ \A p \in {"C06", "C10", "C11"} : PrintT("VERDICT " \o ToString(e.id) \o " " \o p \o " " \o "crash-" \o e.out.kind)
           /\ l' = l + 1 /\ k' = 0 /\ bad' = bad + 1
           /\ bufs' = [b \in Bufs |-> <<>>] /\ holds' = [b \in Bufs |-> <<0, 0>>] /\ vars' = [i \in CatIdx |-> Zero(TypeOf(i))] /\ hist' = <<>>
      ELSE IF k >= Len(e.out.steps)
@@ -62,7 +62,7 @@ TNext ==
           /\ l' = l + 1 /\ k' = 0 /\ bad' = bad
           /\ bufs' = [b \in Bufs |-> <<>>] /\ holds' = [b \in Bufs |-> <<0, 0>>] /\ vars' = [i \in CatIdx |-> Zero(TypeOf(i))] /\ hist' = <<>>
      ELSE LET s == e.steps[k + 1]  o == e.out.steps[k + 1]  vs == StepVerdicts(s, o) IN
-          /\ \A v \in vs : PrintT(<<"VERDICT", e.id, v[1], v[2] \o "@step" \o ToString(k + 1)>>)
+          /\ \A v \in vs : PrintT("VERDICT " \o ToString(e.id) \o " " \o v[1] \o " " \o v[2] \o "@step" \o ToString(k + 1))
           /\ bad' = bad + (IF vs = {} THEN 0 ELSE 1)
           /\ Resync(s, o) /\ hist' = <<>>
           /\ k' = k + 1 /\ l' = l
